@@ -185,24 +185,48 @@ Fixpoint go {S : Type} (stepf : S -> op -> S * out) (setf : S -> Z -> S) (jump :
   | _, _ => vjoin v VBad
   end.
 
-(* live-worker case: ((impl n 0 ()) (started delivered cancelled both neither size still)),
+(* live-worker case: ((impl n 0 ()) (started delivered cancelled both neither size still stuck)),
    impl 2 = wheel, 3 = heap.  n one-shot timers with delay 0 are started on the REAL worker
    goroutine with nobody reading Chan(); once the worker is stuck delivering, every id is
    cancelled, then Chan() is drained.  The verdict only counts: no timer may be delivered
    although its Cancel returned true (both), none may be neither delivered nor cancelled,
    every started timer is accounted for, Size() ends at 0, and no one-shot timer is still
-   reported by IsScheduled() at the moment it is received from Chan() (still). *)
+   reported by IsScheduled() at the moment it is received from Chan() (still); stuck = 1:
+   the start / cancel calls never came back although Chan() was being drained. *)
 Definition check_live (n : Z) (obs : list sx) : verdict :=
   match obs with
-  | [SInt started; SInt delivered; SInt cancelled; SInt both; SInt neither; SInt size; SInt still] =>
+  | [SInt started; SInt delivered; SInt cancelled; SInt both; SInt neither; SInt size; SInt still; SInt stuck] =>
+      if stuck =? 1 then VPropFail 7 else
       vjoin (check_that (both =? 0) (VPropFail 2))
      (vjoin (check_that ((neither =? 0) && (started =? n) && (delivered + cancelled - both + neither =? started)) (VPropFail 1))
             (check_that ((size =? 0) && (still =? 0)) (VPropFail 4)))
   | _ => VBad
   end.
 
+(* worker parked on its output: ((impl variant 0 ()) (parked cancelResult cancelReturned pAfter
+   others expected size)), impl 4 = wheel, 5 = heap; variant 0: the timer P that does not fit
+   into Chan() is a repeating one, 1: a one-shot one.  The tick waits inside tick /
+   expireNear with Chan() full (established from the goroutine dump), Cancel(P) is called,
+   then Chan() is drained.  A repeating P is still scheduled, so its Cancel returns true —
+   and then no runnable of P may arrive any more; a one-shot P left the map when the worker
+   decided, so its Cancel returns false and it arrives exactly once.  Cancel itself must
+   come back (it only queues a request); every other timer arrives; Size() ends at 0. *)
+Definition check_parked (variant : Z) (obs : list sx) : verdict :=
+  match obs with
+  | [SInt parked; SInt cres; SInt cret; SInt pafter; SInt others; SInt expected; SInt size] =>
+      if negb (parked =? 1) then VBad else
+      vjoin (check_that (cret =? 1) (VPropFail 7))
+     (vjoin (check_that (negb ((cres =? 1) && (0 <? pafter))) (VPropFail 2))
+     (vjoin (check_that (if variant =? 0 then cres =? 1 else (cres + pafter =? 1)) (VPropFail 5))
+     (vjoin (check_that (others =? expected) (VPropFail 1))
+            (check_that (size =? 0) (VPropFail 4)))))
+  | _ => VBad
+  end.
+
 Definition check_case (c : sx) : verdict :=
   match c with
+  | SList [SList [SInt 4; SInt variant; SInt _; SList []]; SList obs] => check_parked variant obs
+  | SList [SList [SInt 5; SInt variant; SInt _; SList []]; SList obs] => check_parked variant obs
   | SList [SList [SInt 2; SInt n; SInt _; SList []]; SList obs] => check_live n obs
   | SList [SList [SInt 3; SInt n; SInt _; SList []]; SList obs] => check_live n obs
   | SList [SList [SInt impl; SInt cur0; SInt tt0; SList ops]; SList obs] =>
